@@ -37,12 +37,16 @@ structure State where
   hasClusterEdges : Bool := false
   breaksIsing : Bool := false
   nonConstDiags : List Nat := []
-  /-- `bond_weights` (heat-bath table; contents opaque here) -/
+  /-- `bond_weights`: the heat-bath table, kept as the list of per-bond maximal diagonal weights
+  (the first components of `BondWeights`; the cumulative sums are a function of them) -/
   bondWeights : Option (List Rat) := none
+  doHeatbath : Bool := false
+  doLoopUpdates : Bool := false
   deriving Repr
 
-/-- `Qmc::new_with_state(nvars, rng, state, _)` with `state.len() = nvars` -/
-def State.init (nvars : Nat) : State := { nvars := nvars }
+/-- `Qmc::new_with_state(nvars, rng, state, do_loop_updates)` with `state.len() = nvars` -/
+def State.init (nvars : Nat) (doLoopUpdates : Bool := false) : State :=
+  { nvars := nvars, doLoopUpdates := doLoopUpdates }
 
 /-- `interaction.vars.iter().find(|v| **v >= nvars)` is `Some(_)` -/
 def outOfRange (nvars : Nat) (vars : List Nat) : Bool := vars.any (fun v => decide (nvars ≤ v))
@@ -132,10 +136,41 @@ done nothing, see `Qmc.C16.qmc_make_reject_leaves_state`) -/
 def runCalls (s : State) (cs : List Call) : State :=
   cs.foldl (fun s c => (make c.kind s c.mat c.vars).2) s
 
-/-- the top of `Qmc::diagonal_update`: with the heat-bath option on, a missing table is built
-(`tbl` = whatever `make_bond_weights` returns) -/
-def ensureWeights (s : State) (doHeatbath : Bool) (tbl : List Rat) : State :=
-  if doHeatbath && s.bondWeights.isNone then { s with bondWeights := some tbl } else s
+/-- `Qmc::set_do_heatbath` -/
+def setDoHeatbath (s : State) (b : Bool) : State := { s with doHeatbath := b }
+
+/-- `Qmc::set_do_loop_updates` -/
+def setDoLoopUpdates (s : State) (b : Bool) : State := { s with doLoopUpdates := b }
+
+/-- one entry of `make_bond_weights`: the fold `if w > acc { w } else { acc }` from `0.0` over
+`bonds[b].at(sub, sub).unwrap()` for every substate `sub` (the code enumerates them lsb first, the
+maximum does not depend on the order) -/
+def maxDiagWeight (i : Interaction) : Rat :=
+  (patterns i.n).foldl (fun acc sub =>
+    match i.atP sub sub with
+    | .ok w => if w > acc then w else acc
+    | _ => acc) 0
+
+/-- the top of `Qmc::diagonal_update`: with the heat-bath option on, a missing table is built from
+the CURRENT interactions; a table that is present is used as it is. This is the only field of the
+modelled state a time step touches. -/
+def afterDiagonalUpdate (s : State) : State :=
+  if s.doHeatbath && s.bondWeights.isNone then { s with bondWeights := some (s.bonds.map maxDiagWeight) } else s
+
+/-- the public calls that read or write the modelled fields -/
+inductive Event where
+  | call (c : Call)
+  | setHeatbath (b : Bool)
+  | setLoops (b : Bool)
+  | step
+
+def runEvent (s : State) : Event → State
+  | .call c => (make c.kind s c.mat c.vars).2
+  | .setHeatbath b => setDoHeatbath s b
+  | .setLoops b => setDoLoopUpdates s b
+  | .step => afterDiagonalUpdate s
+
+def runEvents (s : State) (es : List Event) : State := es.foldl runEvent s
 
 /-- what `make_diagonal_interaction` did BEFORE 2abb7bf (no range check in `add_interaction`). Only
 used to state the regression witness of F31. -/
